@@ -561,6 +561,8 @@ class DictView:
 def to_symseq(it, v):
     if isinstance(v, SymSeq):
         return v
+    if isinstance(v, SymObj) and "$seq" in v.fields:
+        return v.fields["$seq"]  # contract-level object that iterates as this sequence (e.g. the keys of an ordered dict)
     if isinstance(v, SymList):
         return v.snapshot()
     items = concrete_iter(it, v)
@@ -1917,7 +1919,11 @@ class LoopSpec:
                 preservation check
     """
 
-    def __init__(self, carried=None, cells=None, invariant=None, step_lemmas=None, pre_capture=None, prepare=None, havoc_more=None):
+    def __init__(self, carried=None, cells=None, invariant=None, step_lemmas=None, pre_capture=None, prepare=None, havoc_more=None, target=None):
+        # target: the loop variable(s) of the loop this contract was written for ("k", or ("sector", "array")); a loop
+        # with another target at this ordinal means the code was restructured (loops added / removed / reordered):
+        # the contract does not apply and the task is UNDECIDED instead of judging a different loop by this invariant
+        self.target = target
         self.carried = carried or {}
         self.cells = cells or []
         self.invariant = invariant
@@ -1996,6 +2002,19 @@ def run_invariant_loop(it, s, env, spec, frame, ordinal, kind, iterable=None):
     qn = frame.func.qualname
     tag = f"{qn}#loop{ordinal}"
     g = {"k": None, "pre": {}, "iter": iterable}
+    if spec.target is not None:
+        import ast as _a
+
+        def _names(t):
+            if isinstance(t, _a.Name):
+                return t.id
+            if isinstance(t, (_a.Tuple, _a.List)):
+                return tuple(_names(z) for z in t.elts)
+            return "?"
+
+        got = _names(s.target) if kind == "for" else None
+        if got != spec.target:
+            raise Unsupported(f"loop contract {tag} does not match the structure of the code (written for the loop over {spec.target!r}, found {got!r})")
     if spec.prepare:
         _call_contract(spec.prepare, f"loop contract {tag} (prepare)", it, env)
     # capture pre-loop state
